@@ -238,10 +238,10 @@ def class_version(o):
 
 def entry_points(di: int, named: int, ep: int) -> bool:
     """
-    pre: 0 <= di < NDOC and 0 <= named <= 2 and 0 <= ep <= 5
+    pre: 0 <= di < NDOC and 0 <= named <= 2 and 0 <= ep <= 7
     post: _
     """
-    di, named, ep = pick(di, NDOC), pick(named, 3), pick(ep, 6)
+    di, named, ep = pick(di, NDOC), pick(named, 3), pick(ep, 8)
     with Native():
         ok = run_entry_case(di, named, ep)
     V.reached()
@@ -268,15 +268,15 @@ def run_entry_case(di, named, ep):
     members = doc["objects"] if is_bundle else [doc]
     if any("id" not in m for m in members):
         return True                                 # objects without id (2.0 SCOs) cannot be stored by id at all
-    if ep == 3 and is_bundle:
+    if ep in (3, 6, 7) and is_bundle:
         return True                                 # FileSystemSink parses a bundle as a whole (members auto-detected): outside the claim, see DESIGN.md
     refs = [direct(m) for m in members]
     ffs = fakefs.FakeFS()
     saved = fakefs.install(F, ffs)
-    saved_m = fakefs.install(M, ffs) if ep >= 4 else None
+    saved_m = fakefs.install(M, ffs) if ep in (4, 5) else None
     try:
         try:
-            if ep >= 4:
+            if ep in (4, 5):
                 # a file written elsewhere, loaded with a named version: MemorySource.load_from_file and MemoryStore.load_from_file
                 ffs.makedirs("/in")
                 ffs.files["/in/data.json"] = json.dumps(doc)
@@ -292,8 +292,14 @@ def run_entry_case(di, named, ep):
                 objs = store.query()
             else:
                 sink = F.FileSystemSink("/fs", allow_custom=False)
-                sink.add(json.loads(json.dumps(doc)), version=version)
+                # the sink's documented input forms: dictionary, JSON text, a list of either
+                sink.add(json.loads(json.dumps(doc)) if ep == 3 else json.dumps(doc) if ep == 6 else [json.dumps(doc)], version=version)
                 objs = F.FileSystemSource("/fs", allow_custom=False).query(version=version)
+                # what the sink wrote is the content AS INTERPRETED under the named version: read back without naming one, it is that version
+                if all(r is not None for r in refs):
+                    plain = F.FileSystemSource("/fs", allow_custom=False).query()
+                    if sorted(class_version(o) or "" for o in plain) != sorted(class_version(r) or "" for r in refs):
+                        return False
         except (STIXError, ValueError, TypeError):
             return any(r is None for r in refs)     # refused: fine iff a direct parse with the same version refuses too
     finally:
@@ -343,3 +349,56 @@ def run_strict_case(bi, named, ep):
     finally:
         F.os, F.io = saved
     return False
+
+
+# ---- what version 2.0 accepts does not depend on what was parsed as 2.1 before (and vice versa)
+V1_ID = "e0a3f0c4-0b9a-11ee-be56-0242ac120002"        # a UUIDv1: a legal identifier in 2.1, not in 2.0
+
+
+def strictness_after_history(ep: int, as_ref: bool) -> bool:
+    """
+    pre: 0 <= ep <= 4
+    post: _
+    """
+    ep, as_ref = pick(ep, 5), pickb(as_ref)
+    with Native():
+        ok = run_history_strict_case(ep, as_ref)
+    V.reached()
+    return ok
+
+
+def run_history_strict_case(ep, as_ref):
+    d20 = dict(DOCS[0][0])
+    d21 = dict(DOCS[1][0])
+    if as_ref:
+        d20["created_by_ref"] = d21["created_by_ref"] = "identity--" + V1_ID
+    else:
+        d20["id"] = d21["id"] = "identity--" + V1_ID
+
+    def accepts20():
+        ffs = fakefs.FakeFS()
+        saved = fakefs.install(F, ffs)
+        try:
+            if ep == 0:
+                stix2.parse(dict(d20), version="2.0")
+            elif ep == 1:
+                stix2.parse(dict(d20))                                   # detected as 2.0
+            elif ep == 2:
+                stix2.v20.Identity(**{k: v for k, v in d20.items() if k != "type"})
+            elif ep == 3:
+                M.MemoryStore(allow_custom=False).add(dict(d20), version="2.0")
+            else:
+                F.FileSystemSink("/fs", allow_custom=False).add(dict(d20), version="2.0")
+            return True
+        except (STIXError, ValueError, TypeError):
+            return False
+        finally:
+            F.os, F.io = saved
+    if accepts20():
+        return False
+    try:
+        stix2.parse(dict(d21), version="2.1")                            # the same identifier is fine as 2.1 content
+        stix2.v21.Identity(**{k: v for k, v in d21.items() if k != "type"})
+    except (STIXError, ValueError, TypeError):
+        return False
+    return not accepts20()
